@@ -284,10 +284,20 @@ func (s *Sched) parkThread(t *Thread, op pendingOp) {
 }
 
 func (s *Sched) isClosed(ch reflect.Value) bool {
-	if s.closed[ch.Pointer()] {
-		return true
+	p := ch.Pointer()
+	if !s.closed[p] {
+		return false
 	}
-	return false
+	// The closed set is keyed by address; a collected channel's address can be reused by a new
+	// one (NewChan clears the entry; this is the safety net): an empty, receivable channel that
+	// would block on a non-consuming TryRecv is open.
+	if ch.Type().ChanDir()&reflect.RecvDir != 0 && ch.Len() == 0 {
+		if x, _ := ch.TryRecv(); !x.IsValid() {
+			delete(s.closed, p)
+			return false
+		}
+	}
+	return true
 }
 
 // caseReady reports whether a buffered/closed-channel case can complete alone.
